@@ -12,8 +12,10 @@ Theorem C09_scalar_value_roundtrip : forall v, C9.decode_value (C9.kind_of v) (C
 Proof. exact C9.C09_value_roundtrip. Qed.
 Print Assumptions C09_scalar_value_roundtrip.
 
-(* delimiter-separated lists of trimmed, delimiter-free, non-empty elements *)
-Theorem C09_list_value_roundtrip : forall d strip, strip d = false -> forall es, es <> [] -> Forall (elt_ok d strip) es ->
+(* delimiter-separated lists of trimmed, delimiter-free elements: EVERY such list - the empty one included, which a required
+   field writes as "K: " (repair of the r12 finding: it read back as one empty element, and this theorem needed es <> []) -
+   except the single list that is written like the empty one, [""] *)
+Theorem C09_list_value_roundtrip : forall d strip, strip d = false -> forall es, es <> [[]] -> Forall (elt_ok d strip) es ->
   decode_list d strip (marshal_list d es) = es.
 Proof. exact C09_list_roundtrip. Qed.
 Print Assumptions C09_list_value_roundtrip.
